@@ -59,6 +59,32 @@ func checkC08(c *Check) {
 	for _, w := range ws {
 		workerFn[w.Fn] = true
 	}
+	// functions extracted from a worker closure: statically called, only
+	// from worker code, never started with go
+	for changed := true; changed; {
+		changed = false
+		for _, fn := range p.AllRepoFuncs() {
+			if FuncPkgPath(fn) != ModPath+"/cmd" || workerFn[fn] {
+				continue
+			}
+			sites := staticCallers(p, fn)
+			if len(sites) == 0 {
+				continue
+			}
+			all := true
+			for _, s := range sites {
+				_, isGo := s.(*ssa.Go)
+				_, isDefer := s.(*ssa.Defer)
+				if !workerFn[s.Parent()] || isGo || isDefer {
+					all = false
+				}
+			}
+			if all {
+				workerFn[fn] = true
+				changed = true
+			}
+		}
+	}
 	for _, fn := range p.AllRepoFuncs() {
 		if FuncPkgPath(fn) != ModPath+"/cmd" {
 			continue
@@ -109,8 +135,42 @@ func checkC08(c *Check) {
 	// 2. worker closure returns the worker's error; named pipe check error returned
 	for _, w := range ws {
 		nerr := 0
-		for _, ci := range callsIn(w.Fn) {
+		var bodyCalls []ssa.CallInstruction
+		inBody := map[*ssa.Function]bool{}
+		for _, bf := range cmdBody(p, w.Fn) {
+			inBody[bf] = true
+			bodyCalls = append(bodyCalls, callsIn(bf)...)
+		}
+		// reachesWorkerResult: the error value flows to the return of its
+		// function and, when that is a helper of the worker, from every call
+		// of the helper on to the worker closure's own result
+		var reachesWorkerResult func(ev ssa.Value, fn *ssa.Function, depth int) bool
+		reachesWorkerResult = func(ev ssa.Value, fn *ssa.Function, depth int) bool {
+			fl := &errFlow{p: p, seen: map[ssa.Value]bool{}}
+			fl.follow(ev, 0)
+			if len(fl.Returned) == 0 || depth > 4 {
+				return false
+			}
+			if fn == w.Fn {
+				return true
+			}
+			sites := staticCallers(p, fn)
+			if len(sites) == 0 {
+				return false
+			}
+			for _, s := range sites {
+				sv, ok := s.(ssa.Value)
+				if !ok || !inBody[s.Parent()] || !reachesWorkerResult(sv, s.Parent(), depth+1) {
+					return false
+				}
+			}
+			return true
+		}
+		for _, ci := range bodyCalls {
 			cc := ci.Common()
+			if sc := staticCallee(cc); sc != nil && inBody[sc] {
+				continue // a helper of this worker: its own calls are examined
+			}
 			sig := cc.Signature()
 			if sig == nil || sig.Results().Len() == 0 || !isErrorType(sig.Results().At(sig.Results().Len()-1).Type()) {
 				continue
@@ -138,11 +198,7 @@ func checkC08(c *Check) {
 					}
 				}
 			}
-			fl := &errFlow{p: p, seen: map[ssa.Value]bool{}}
-			if ev != nil {
-				fl.follow(ev, 0)
-			}
-			c.Cond(ev != nil && len(fl.Returned) > 0, "worker-error-returned", "worker "+w.Label+": error of "+strings.TrimPrefix(callee, "invoke "), p.InstrPos(ci), "flows to the closure's return value (and so to eg.Wait)", "the error is not returned from the worker closure: the failure neither cancels the other workers nor reaches the exit status")
+			c.Cond(ev != nil && reachesWorkerResult(ev, ci.Parent(), 0), "worker-error-returned", "worker "+w.Label+": error of "+strings.TrimPrefix(callee, "invoke "), p.InstrPos(ci), "flows to the closure's return value (and so to eg.Wait)", "the error is not returned from the worker closure: the failure neither cancels the other workers nor reaches the exit status")
 		}
 		if w.Pipe {
 			c.Floor("error-returning calls in worker "+w.Label, 1, nerr)
@@ -155,7 +211,11 @@ func checkC08(c *Check) {
 	}
 	for _, w := range pipe {
 		r := NewResolver(p)
-		for _, ci := range callsIn(w.Fn) {
+		var bodyCalls []ssa.CallInstruction
+		for _, bf := range cmdBody(p, w.Fn) {
+			bodyCalls = append(bodyCalls, callsIn(bf)...)
+		}
+		for _, ci := range bodyCalls {
 			for i, a := range ci.Common().Args {
 				if !isContextType(a.Type()) {
 					continue
